@@ -139,6 +139,7 @@ class WorkCopy:
         env = dict(self.env)
         env.setdefault("GOMEMLIMIT", "6GiB")
         env.setdefault("VERIF_HANGDIR", os.path.join(VERIF, "replays", "hangs"))
+        env.setdefault("VERIF_CASE_LIMIT", "240")
         if extra_env:
             env.update(extra_env)
         p = subprocess.run(
